@@ -6,7 +6,7 @@ use crate::mvalue::*;
 use crate::util::*;
 use gimli::*;
 
-pub type Rd<'a> = FixLeb<'a, LittleEndian, 1>;
+pub type Rd<'a> = PosLeb<'a, LittleEndian, 1>;
 
 pub struct St;
 impl<'a> EvaluationStorage<Rd<'a>> for St {
@@ -15,6 +15,19 @@ impl<'a> EvaluationStorage<Rd<'a>> for St {
     type Result = [Piece<Rd<'a>>; 2];
 }
 pub type Ev<'a> = Evaluation<Rd<'a>, St>;
+
+/// Build a program array by element assignment.  (An array *literal* with a symbolic element, e.g. `[0x90, r]`, is not
+/// constant-folded by the symbolic executor when read back through a slice: the opcode byte would become symbolic.)
+macro_rules! prog {
+    ($($b:expr),* $(,)?) => {{
+        const N: usize = [$(stringify!($b)),*].len();
+        let mut p = [0u8; N];
+        let mut i = 0;
+        $( p[i] = $b; i += 1; )*
+        let _ = i;
+        p
+    }};
+}
 
 pub fn any_enc() -> Encoding {
     crate::c07::any_encoding()
@@ -140,14 +153,14 @@ pub fn eval_limit_straight(prog: &[u8], n_ops: u32) {
 fn c07_t_eval_register_location() {
     // DW_OP_reg5 ; and DW_OP_regx r
     let enc = any_enc();
-    let prog = [0x55u8];
+    let prog = prog![0x55];
     let mut e = new_eval(&prog, enc);
     assert!(e.evaluate() == Ok(EvaluationResult::Complete));
     let ps = e.as_result();
     assert!(ps.len() == 1 && ps[0].location == Location::Register { register: Register(5) } && ps[0].size_in_bits.is_none());
     let r: u8 = kani::any();
     kani::assume(r < 0x80);
-    let prog = [0x90u8, r];
+    let prog = prog![0x90, r];
     let mut e = new_eval(&prog, enc);
     assert!(e.evaluate() == Ok(EvaluationResult::Complete));
     assert!(e.as_result()[0].location == Location::Register { register: Register(r as u16) });
@@ -160,7 +173,7 @@ fn c07_t_eval_pieces() {
     let enc = any_enc();
     let (n, m): (u8, u8) = (kani::any(), kani::any());
     kani::assume(n < 0x80 && m < 0x80);
-    let prog = [0x53u8, 0x93, n, 0x37, 0x9f, 0x93, m];
+    let prog = prog![0x53, 0x93, n, 0x37, 0x9f, 0x93, m];
     let mut e = new_eval(&prog, enc);
     assert!(e.evaluate() == Ok(EvaluationResult::Complete));
     let ps = e.as_result();
@@ -174,15 +187,15 @@ fn c07_t_eval_pieces() {
 fn c07_t_eval_location_then_garbage() {
     // a register location followed by anything but a piece is malformed
     let enc = any_enc();
-    let prog = [0x53u8, 0x31];
+    let prog = prog![0x53, 0x31];
     let mut e = new_eval(&prog, enc);
     assert!(matches!(e.evaluate(), Err(Error::InvalidExpressionTerminator(_))));
     // a piece followed by an unterminated location
-    let prog = [0x53u8, 0x93, 4, 0x31];
+    let prog = prog![0x53, 0x93, 4, 0x31];
     let mut e = new_eval(&prog, enc);
     assert!(e.evaluate() == Err(Error::InvalidPiece));
     // empty piece
-    let prog = [0x93u8, 4];
+    let prog = prog![0x93, 4];
     let mut e = new_eval(&prog, enc);
     assert!(e.evaluate() == Ok(EvaluationResult::Complete));
     assert!(e.as_result().len() == 1 && e.as_result()[0].location == Location::Empty);
@@ -198,21 +211,21 @@ fn c07_t_eval_fbreg_breg_cfa() {
     kani::assume(o < 0x80);
     let off = (((o & 0x7f) as i8) << 1 >> 1) as i64;
     // DW_OP_fbreg off
-    let prog = [0x91u8, o];
+    let prog = prog![0x91, o];
     let mut e = new_eval(&prog, enc);
     assert!(e.evaluate() == Ok(EvaluationResult::RequiresFrameBase));
     let fb: u64 = kani::any();
     assert!(e.resume_with_frame_base(fb) == Ok(EvaluationResult::Complete));
     check_top(&e, V::new(T::Generic, fb.wrapping_add(off as u64)), mask);
     // DW_OP_breg7 off
-    let prog = [0x77u8, o];
+    let prog = prog![0x77, o];
     let mut e = new_eval(&prog, enc);
     assert!(e.evaluate() == Ok(EvaluationResult::RequiresRegister { register: Register(7), base_type: UnitOffset(0) }));
     let rv: u64 = kani::any();
     assert!(e.resume_with_register(Value::Generic(rv)) == Ok(EvaluationResult::Complete));
     check_top(&e, V::new(T::Generic, rv.wrapping_add(off as u64)), mask);
     // DW_OP_call_frame_cfa ; DW_OP_plus_uconst o
-    let prog = [0x9cu8, 0x23, o];
+    let prog = prog![0x9c, 0x23, o];
     let mut e = new_eval(&prog, enc);
     assert!(e.evaluate() == Ok(EvaluationResult::RequiresCallFrameCfa));
     let cfa: u64 = kani::any();
@@ -244,7 +257,7 @@ fn c07_t_eval_deref_addr() {
     check_top(&e, V::new(T::Generic, m.wrapping_add(1)), mask);
     // DW_OP_deref_size with a size larger than an address is invalid
     let s: u8 = kani::any();
-    let prog2 = [0x31u8, 0x94, s];
+    let prog2 = prog![0x31, 0x94, s];
     let mut e = new_eval(&prog2, enc);
     let r = e.evaluate();
     if s > enc.address_size {
@@ -253,7 +266,7 @@ fn c07_t_eval_deref_addr() {
         assert!(r == Ok(EvaluationResult::RequiresMemory { address: 1, size: s, space: None, base_type: UnitOffset(0) }));
     }
     // DW_OP_push_object_address
-    let prog3 = [0x97u8];
+    let prog3 = prog![0x97];
     let mut e = new_eval(&prog3, enc);
     assert!(e.evaluate() == Err(Error::InvalidPushObjectAddress));
     let mut e = new_eval(&prog3, enc);
@@ -280,7 +293,7 @@ fn c07_q_eval_initial_value_and_empty() {
     let mut e = new_eval(&prog, enc);
     assert!(e.evaluate() == Err(Error::NotEnoughStackItems));
     // DW_OP_nop ; DW_OP_lit9
-    let prog = [0x96u8, 0x39];
+    let prog = prog![0x96, 0x39];
     let mut e = new_eval(&prog, enc);
     assert!(e.evaluate() == Ok(EvaluationResult::Complete));
     check_top(&e, V::new(T::Generic, 9), mask);
@@ -295,7 +308,7 @@ fn c07_t_eval_call_continues() {
     // main: call2 0x1234 ; lit3 ; plus          callee: lit4
     let o: [u8; 2] = kani::any();
     let prog = [0x98u8, o[0], o[1], 0x33, 0x22];
-    let callee = [0x34u8];
+    let callee = prog![0x34];
     let mut e = new_eval(&prog, enc);
     let r = e.evaluate();
     assert!(r == Ok(EvaluationResult::RequiresAtLocation(DieReference::UnitRef(UnitOffset(u16::from_le_bytes(o) as usize)))));
@@ -315,8 +328,8 @@ fn c07_t_eval_call_continues() {
 fn c07_t_eval_limit_across_calls() {
     let enc = any_enc();
     // main: call2 ; call2 ; lit1        callee: lit2 ; drop     => 3 + 2*2 = 7 operations
-    let prog = [0x98u8, 0, 0, 0x98, 0, 0, 0x31];
-    let callee = [0x32u8, 0x13];
+    let prog = prog![0x98, 0, 0, 0x98, 0, 0, 0x31];
+    let callee = prog![0x32, 0x13];
     let limit: u32 = kani::any();
     kani::assume(limit <= 8);
     let mut e = new_eval(&prog, enc);
@@ -337,3 +350,4 @@ fn c07_t_eval_limit_across_calls() {
     kani::cover!(limit == 7);
     kani::cover!(limit == 6);
 }
+
